@@ -688,14 +688,24 @@ class Renderer:
                     cc = ch.choice(list("&+$1*x.!>#")) if self.feat.get("fixed_contchars", True) else "&"
                     self.used.setdefault("fixed-contchar", set()).add(cc)
                     if self.feat.get("comments", True) and ch.bool(1, 4):
-                        between[len(rows)] = [ch.choice(["C between zc0x4w0", "c it's zc0x4w1", "* x = 1", "! plain zc0x4w2", "", "   "])
-                                              for _ in range(ch.count(1, 2))]
+                        pool = ["C between zc0x4w0", "c it's zc0x4w1", "* x = 1", "! plain zc0x4w2", "", "   "]
+                        if self.feat.get("fixed_wide_blanks", True):
+                            # a blank line longer than six characters; a `!` comment that starts in the statement field
+                            pool += ["        ", "       ! column eight zc0x4w3", "          ! it's indented zc0x4w4"]
+                        between[len(rows)] = [ch.choice(pool) for _ in range(ch.count(1, 2))]
                         self.used.setdefault("fixed-comment-between-continuation", set()).add("yes")
                     rows.append("     " + cc + pc)
             if not length_limit and any(len(r) > 72 for r in rows):
                 self.used.setdefault("fixed-long-line", set()).add("yes")
             if any(len(r) > 72 for r in rows) and length_limit:
                 self.fixed_ok = False
+            # an ordinary trailing comment on a line that is continued
+            if len(rows) > 1 and self.feat.get("comments", True) and self.feat.get("fixed_inline_comments", True) and ch.bool(1, 4):
+                i = ch.int(len(rows) - 1)
+                cand = rows[i] + " ! " + ch.choice(["trailing zc0x5w0", "it's zc0x5w1", "b = 2 zc0x5w2"])
+                if len(cand) <= 72:
+                    rows[i] = cand
+                    self.used.setdefault("fixed-inline-comment-on-continued-line", set()).add("yes")
             # inline documentation on the last physical line of the statement
             inline = None
             if ln.post and ln.docsty == "post" and self.feat.get("inline_docs", True) and ch.bool(1, 3):
